@@ -55,12 +55,12 @@ def infer_redirection(url, recursive=True):
         authority_match = AUTHORITY_RE.match(url)
         offset = authority_match.end() if authority_match is not None else 0
 
-        obvious_redirect_match = OBVIOUS_REDIRECTS_RE.search(url, offset)
-
-        if obvious_redirect_match is not None:
+        # NOTE: the first redirection-like parameter is not always the one
+        # ("?l=en&url=http://b.com", "?sa=D&q=http://b.com")
+        for obvious_redirect_match in OBVIOUS_REDIRECTS_RE.finditer(url, offset):
             if obvious_redirect_match.group(1) == "q":
-                if "/url?q=" not in url and "/redirect" not in url:
-                    return url
+                if "/url?" not in url and "/redirect" not in url:
+                    continue
 
             potential_target = unquote(obvious_redirect_match.group(2))
 
@@ -80,23 +80,28 @@ def infer_redirection(url, recursive=True):
                     base = LEADING_JUNK_RE.sub("", url)
 
                     if PROTOCOL_RE.match(base):
-                        target = urljoin(base, potential_target)
+                        candidate = urljoin(base, potential_target)
                     else:
-                        target = urljoin("http://" + base, potential_target)[7:]
+                        candidate = urljoin("http://" + base, potential_target)[7:]
 
                 # NOTE: "//[::1" or an url with an unbalanced bracket cannot be joined
                 except ValueError:
-                    return url
+                    continue
 
                 # NOTE: a target joins to something shorter than the url it was
                 # found in, or it is not one: "//" (no host) joins to the url
                 # itself, or to the url plus its own fragment, forever
-                if len(target) >= len(url):
-                    return url
+                if len(candidate) >= len(url):
+                    continue
+
+                target = candidate
 
             # Idiotic youtube redirections
             elif "youtube.com/redirect?" in url:
                 target = "https://" + potential_target
+
+            if target is not None:
+                break
 
     if target is None:
         return url
